@@ -25,7 +25,8 @@ SHOW = {"int": "to_string({x})", "str": "to_string({x})", "vec": "to_string({x})
 
 MUT = {
     "int": {":=": "{x} := 7", "=": "{x} = 7", "+=": "{x} += 1", "-=": "{x} -= 1", "*=": "{x} *= 2", "/=": "{x} /= 2", "%=": "{x} %= 3", "&=": "{x} &= 1", "|=": "{x} |= 2",
-            "^=": "{x} ^= 1", "<<=": "{x} <<= 1", ">>=": "{x} >>= 1", "++": "++{x}", "--": "--{x}", "fn_ref": "mut_int_ref({x})", "fn_ptr": "mut_int_ptr({x})"},
+            "^=": "{x} ^= 1", "<<=": "{x} <<= 1", ">>=": "{x} >>= 1", "++": "++{x}", "--": "--{x}", "fn_ref": "mut_int_ref({x})", "fn_ptr": "mut_int_ptr({x})",
+            "f=": "`=`({x}, 99)", "f+=": "`+=`({x}, 5)", "f++": "`++`({x})", "bind*=": "bind(`*=`, {x}, _)(2)"},
     "str": {":=": '{x} := "new"', "=": '{x} = "new"', "+=": '{x} += "x"', "push_back": "{x}.push_back('x')", "clear": "{x}.clear()", "erase_at": "{x}.erase_at(0)",
             "elem=": "{x}[0] = 'z'", "fn_ref": "mut_str_ref({x})", "fn_ptr": "mut_str_ptr({x})"},
     "vec": {":=": "{x} := [9]", "=": "{x} = [9]", "push_back": "{x}.push_back(9)", "pop_back": "{x}.pop_back()", "clear": "{x}.clear()", "erase_at": "{x}.erase_at(0)",
@@ -195,7 +196,7 @@ def run(ck, tier, seed):
     ck.extra["const_paths_without_working_control"] = unverifiable
     ck.rule = ("every chain source x routes (<=1 all" + (", a seeded 2500 of length 2" if quick else ", length 2 all") + ") x mutator of Pred() in ConstAlias.tla: 17 const sources "
                "(literals, const_var / add_global_const values, C++ objects by const&, const*, cref wrapper, shared_ptr<const>, const return), 15 routes, "
-               "6-15 mutators per type, each also on a mutable control; distinct = (type, mutator, routes, predicted result)")
+               "6-19 mutators per type, each also on a mutable control; distinct = (type, mutator, routes, predicted result)")
     ck.sample({"path": {k: paths[0][k] for k in ("src", "routes", "mut", "res")}, "script": paths[0]["script"]})
     ck.sample({"path": {k: paths[len(paths) // 2][k] for k in ("src", "routes", "mut", "res")}, "script": paths[len(paths) // 2]["script"]})
     ck.assumptions += ["a chain+mutator is counted only where the same chain+mutator provably mutates a mutable control of the same type (vacuity guard)",
